@@ -356,6 +356,20 @@ func (c *opCtx) body(b *ast.BlockStmt, results int) []string {
 	for i, st := range b.List {
 		switch s := st.(type) {
 		case *ast.AssignStmt:
+			// p = X.Put(p, v): Put returns the pointer it was given, so this is the statement `X.Put(p, v)`
+			if s.Tok == token.ASSIGN && len(s.Lhs) == 1 && len(s.Rhs) == 1 {
+				if call, ok := s.Rhs[0].(*ast.CallExpr); ok {
+					if sel, ok := call.Fun.(*ast.SelectorExpr); ok && sel.Sel.Name == "Put" && len(call.Args) == 2 {
+						if l, ok := s.Lhs[0].(*ast.Ident); ok {
+							if a0, ok := call.Args[0].(*ast.Ident); ok && a0.Name == l.Name && c.ptr[l.Name] {
+								c.mutated[l.Name] = true
+								lines = append(lines, fmt.Sprintf("let %s := %s", id(l.Name), c.expr(call)))
+								continue
+							}
+						}
+					}
+				}
+			}
 			if s.Tok != token.DEFINE || len(s.Lhs) != 1 || len(s.Rhs) != 1 {
 				c.fail(st, "unsupported assignment %s", src(st))
 			}
@@ -373,11 +387,32 @@ func (c *opCtx) body(b *ast.BlockStmt, results int) []string {
 					}
 				}
 			}
+			// … or `X.f(v)` where f is a function-typed field
+			if lt == nil {
+				if call, ok := s.Rhs[0].(*ast.CallExpr); ok {
+					if ft, ok := c.typeOf(call.Fun).(*ast.FuncType); ok && ft.Results != nil && len(ft.Results.List) == 1 && len(ft.Results.List[0].Names) <= 1 {
+						lt = ft.Results.List[0].Type
+					}
+				}
+			}
 			if lt == nil {
 				c.fail(st, "cannot type local %s", l.Name)
 			}
 			c.env[l.Name] = lt
 			lines = append(lines, fmt.Sprintf("let %s := %s", id(l.Name), rhs))
+		case *ast.DeclStmt:
+			// var zero B   (the zero value: `default`, as for *new(B))
+			if gd, ok := s.Decl.(*ast.GenDecl); ok && gd.Tok == token.VAR && len(gd.Specs) == 1 {
+				if vs, ok := gd.Specs[0].(*ast.ValueSpec); ok && len(vs.Names) == 1 && len(vs.Values) == 0 && vs.Type != nil {
+					if ti, ok := vs.Type.(*ast.Ident); ok && c.tp[ti.Name] && c.env[vs.Names[0].Name] == nil {
+						c.inhabit[ti.Name] = true
+						c.env[vs.Names[0].Name] = vs.Type
+						lines = append(lines, fmt.Sprintf("let %s : %s := default", id(vs.Names[0].Name), ti.Name))
+						continue
+					}
+				}
+			}
+			c.fail(st, "unsupported statement %s", src(st))
 		case *ast.ExprStmt:
 			call, ok := s.X.(*ast.CallExpr)
 			if !ok {
